@@ -21,7 +21,9 @@ let c14_table : (string * (Z.t list -> Z.t list option)) list = Model.[
 
 let c01_table : (string * (Z.t list -> Z.t list option)) list = Model.[ "prog", run_prog ]
 
-let tables = [ "c14", c14_table; "c01", c01_table ]
+let c16_table : (string * (Z.t list -> Z.t list option)) list = Model.[ "dedup", run_dedup ]
+
+let tables = [ "c14", c14_table; "c01", c01_table; "c16", c16_table ]
 
 let split_ws s = List.filter (fun x -> x <> "") (String.split_on_char ' ' s)
 
